@@ -365,7 +365,10 @@ class J1939_22:
         # check receive buffers for timeout
         # using 'list(x)' to prevent 'RuntimeError: dictionary changed size during iteration'
         for bufid in list(self._rcv_buffer):
-            buf = self._rcv_buffer[bufid]
+            buf = self._rcv_buffer.get(bufid)
+            if buf is None:
+                # completed by the receive path after the snapshot above was taken
+                continue
             if buf['deadline'] != 0:
                 if buf['deadline'] > now:
                     if next_wakeup > buf['deadline']:
@@ -375,9 +378,9 @@ class J1939_22:
                     logger.info('Deadline reached for rcv_buffer src 0x%02X dst 0x%02X', buf['src_address'], buf['dest_address'] )
                     if buf['dest_address'] != ParameterGroupNumber.Address.GLOBAL:
                         self.__send_tp_abort(buf['dest_address'], buf['src_address'], buf['session'], self.ConnectionAbortReason.TIMEOUT, buf['pgn'])
-                        del self._rcv_buffer[bufid]
+                        self._rcv_buffer.pop(bufid, None)
                     else:
-                        del self._rcv_buffer[bufid]
+                        self._rcv_buffer.pop(bufid, None)
                     # note: the session number of a received transfer belongs to the remote originator;
                     # it must not be put back into our own (originator) session pools
                     # TODO: should we notify our CAs about the cancelled transfer?
